@@ -259,6 +259,8 @@ def build_unit(unit, log):
         log.append(dict(unit=uid, rule=rule, where='body', pattern=pat, replacement=repl, matches=[m.group(0)]))
         body = body[:m.start()] + (m.expand(inline) if inline else '') + body[m.end():]
     body = _apply_rewrites(body, unit.get('rw', []), log, uid, 'body')
+    if re.search(r'\{\s*continue;\s*\}', rsparse.mask(body)) and not any(r[1] == '@continue' for r in unit.get('rw', [])):
+        body = _eliminate_continue(body, log, uid)     # R7 applies wherever the form occurs
     body = _splice_loops(body, unit.get('loops', {}), uid)
     body = _splice_hints(body, unit.get('hints', []), uid)
     if unit.get('begin'):
